@@ -149,7 +149,16 @@ func wf(bm *bondmachine.Bondmachine) (fails []wfFail) {
 					}
 				}
 			}
-			line := op.Op_get_name() + " " + strings.TrimSpace(dis)
+			// the disassembler prints 64-bit immediates >= 2^63 as negative decimals (a recorded C03 finding about
+			// the disassembler, not about the machine): read them back as the unsigned value they stand for
+			for ti, t := range toks {
+				if len(t) > 1 && t[0] == '-' && isNum(t[1:]) {
+					if v, err := strconv.ParseInt(t, 10, 64); err == nil {
+						toks[ti] = strconv.FormatUint(uint64(v), 10)
+					}
+				}
+			}
+			line := op.Op_get_name() + " " + strings.Join(toks, " ")
 			var w2 string
 			var aerr error
 			func() {
